@@ -145,18 +145,15 @@ def repliesEqv7 : List Reply → List Redis.Reply → Bool
 /-- decidable: every M7 command except RANDOMKEY (a relation: see `randomkey_refines`) and the
     two-key commands / MSETNX whose keys live on different shards (known findings `C03:two-key:*`,
     `C03:multi-key:MSETNX`) -/
-def Routable7 (R : Routes) (c : Redis.Cmd) : Bool :=
-  match c with
+def Routable7 (R : Routes) : Redis.Cmd → Bool
   | .randomkey _ => false
   | .msetnx kvs =>
     match kvs with
     | [] => true
     | kv :: rest => rest.all (fun x => R.bytes x.1 == R.bytes kv.1)
-  | c =>
-    match Redis.cmdKeys c, c with
-    | _, .mget _ | _, .mset _ | _, .del _ | _, .exists _ => true
-    | some [a, b], _ => R.bytes a == R.bytes b
-    | _, _ => true
+  | .rename a b | .renamenx a b | .rpoplpush a b | .lmove a b _ _ | .sort a (some b) =>
+    R.bytes a == R.bytes b
+  | _ => true
 
 /-- virtual time never goes backwards along the run -/
 def Mono7 : Nat → List (Nat × Redis.Cmd) → Prop
